@@ -590,13 +590,15 @@ static SOLO_FENCES: AtomicU64 = AtomicU64::new(0);
 const SOLO_LIMIT: u64 = 20_000_000;
 
 static SOLO_MODE: AtomicU64 = AtomicU64::new(0);
+/// set while the C API is on the stack: a panic could not unwind through `extern "C"`; the child's time limit ends a spin
+static SOLO_NO_PANIC: std::sync::atomic::AtomicBool = std::sync::atomic::AtomicBool::new(false);
 
 fn solo_load(addr: usize, _w: u8, _o: O, real: u64) -> u64 {
     match addr & 0xfff {
         12 => { SOLO_VER_LOADS.fetch_add(1, O::Relaxed); 1 }
         14 => {
             let k = SOLO_GEN_LOADS.fetch_add(1, O::Relaxed);
-            if k > SOLO_LIMIT { std::panic::panic_any("unbounded"); }
+            if k > SOLO_LIMIT && !SOLO_NO_PANIC.load(O::Relaxed) { std::panic::panic_any("unbounded"); }
             let g0 = SOLO_G0.load(O::Relaxed);
             match SOLO_MODE.load(O::Relaxed) {
                 // a writer that dies right after the reader's first load: odd for ever
@@ -663,6 +665,14 @@ pub fn exec_slx(toks: &[&str]) -> String {
 /// `clockbound_now()` calls (first under the scripted writer, second with the generation frozen odd, third with
 /// the generation stable at a new even value). The answer is the class of each call: `ok` or `err <kind>`.
 pub fn exec_slxc(toks: &[&str]) -> String {
+    // in a child process: a panic inside an `extern "C"` function aborts, and a C-side spin cannot be unwound
+    let toks: Vec<String> = toks.iter().map(|s| s.to_string()).collect();
+    let limit = crate::util::watchdog_limit().saturating_sub(8).max(10);
+    let r = crate::util::in_child(limit, move || { let t: Vec<&str> = toks.iter().map(|s| s.as_str()).collect(); exec_slxc_here(&t) });
+    if r == "timeout" || r.starts_with("crash") { "unbounded unbounded unbounded".into() } else { r }
+}
+
+fn exec_slxc_here(toks: &[&str]) -> String {
     use crate::ffi;
     let g0: u64 = toks[1].parse().unwrap();
     let period: u64 = toks[2].parse::<u64>().unwrap().max(1);
@@ -674,6 +684,7 @@ pub fn exec_slxc(toks: &[&str]) -> String {
     let ctx = unsafe { ffi::clockbound_open(c.as_ptr(), &mut err) };
     if ctx.is_null() { return "open-failed".into(); }
     SOLO_G0.store(g0, O::Relaxed); SOLO_PERIOD.store(period, O::Relaxed); SOLO_MODE.store(mode, O::Relaxed);
+    SOLO_NO_PANIC.store(true, O::Relaxed);
     for a in [&SOLO_GEN_LOADS, &SOLO_VER_LOADS, &SOLO_CELL_COPIES, &SOLO_FENCES] { a.store(0, O::Relaxed); }
     *verif_shim::HOOKS.write().unwrap() = Some(Hooks { load: solo_load, store: solo_store, fence: solo_fence, data_write: solo_data_write, data_read: solo_data_read, point: h_point });
     // readings far beyond every void-after of the scripted records: the calls are judged by their class only
